@@ -87,11 +87,10 @@ func newIndexedField(value interface{}, objid uint64) (*indexedField, error) {
 	return &indexedField{value, objid}, err
 }
 
-func (f *indexedField) valueTypeFromString(t string) {
-	var err error
+func (f *indexedField) valueTypeFromString(t string) (err error) {
 	// numbers come out of json as json.Number (see UnmarshalJSON),
 	// we parse them according to the type the field is cast to
-	n, _ := f.Value.(json.Number)
+	n, isNumber := f.Value.(json.Number)
 	switch t {
 	case "float64":
 		f.Value, err = strconv.ParseFloat(n.String(), 64)
@@ -100,12 +99,17 @@ func (f *indexedField) valueTypeFromString(t string) {
 	case "uint64":
 		f.Value, err = strconv.ParseUint(n.String(), 10, 64)
 	case "string":
+		if _, ok := f.Value.(string); !ok {
+			err = fmt.Errorf("%T is not a string", f.Value)
+		}
+		return
 	default:
-		panic(fmt.Errorf("%w %s", ErrUnknownKeyType, t))
+		return fmt.Errorf("%w %s", ErrUnknownKeyType, t)
 	}
-	if err != nil {
-		panic(fmt.Errorf("%w %s: %s", ErrUnknownKeyType, t, err))
+	if err != nil || !isNumber {
+		return fmt.Errorf("%w %s: cannot convert %v", ErrUnknownKeyType, t, n)
 	}
+	return
 }
 
 func (f *indexedField) valueTypeString() string {
